@@ -124,13 +124,14 @@ func runProm(tt *testing.T, tape *simrt.Tape, keep bool) (out simrt.Outcome) {
 			total = 500 + tape.Choose(2000)
 		}
 		methods := []string{"GET", "POST"}
-		urls := []string{"http://a/", "http://b/x", "http://c/?q=1"}
+		// label values that are prefixes of one another / collide when label values are concatenated without a separator
+		urls := []string{"http://a/", "http://b/x", "http://c/?q=1", "http://c/?q=120", "http://c/?q=1 200", "http://c/?q=12"}
 		errs := []string{"500 Internal Server Error", "Get \"http://a/\": EOF", "timeout"}
 		lats := []time.Duration{0, time.Millisecond, 5 * time.Millisecond, 5*time.Millisecond + 1, 10 * time.Millisecond, 250 * time.Millisecond, time.Second, 2500 * time.Millisecond, 10 * time.Second, 11 * time.Second, time.Hour, 4999999 * time.Nanosecond}
 		results := make([]*vegeta.Result, total)
 		ref := map[promKey]*promRef{}
 		for i := range results {
-			r := &vegeta.Result{Method: methods[tape.Choose(2)], URL: urls[tape.Choose(3)], Code: []uint16{200, 200, 404, 500, 0}[tape.Choose(5)],
+			r := &vegeta.Result{Method: methods[tape.Choose(2)], URL: urls[tape.Choose(len(urls))], Code: []uint16{200, 200, 404, 500, 0, 20, 1200 % 600}[tape.Choose(7)],
 				BytesIn: uint64(tape.Choose(1 << 20)), BytesOut: uint64(tape.Choose(1 << 12)), Latency: lats[tape.Choose(len(lats))] + time.Duration(tape.Choose(1000))}
 			if r.Code != 200 || tape.Prob(1, 10) {
 				r.Error = errs[tape.Choose(len(errs))]
